@@ -27,7 +27,8 @@ DecCheck(ev) ==
     LET d == Decode(ev.bytes) IN
     IF ~d.ok THEN {"generated_file_rejected_by_specification:" \o d.why}
     ELSE Tag("no_crash", TRUE)
-         \cup Tag("error_code", ev.err = (IF Dangling(d.lay) THEN 4 ELSE 0))
+         \* MissingReference (4) is raised last, when names are resolved; UnsupportedRecord (5) by X records
+         \cup Tag("error_code", ev.err = (IF Dangling(d.lay) THEN 4 ELSE IF d.lay.xrecords THEN 5 ELSE 0))
          \cup Tag("file_closed", ev.fd = 0)
          \cup Tag("library_name", ev.lib.name = <<76, 73, 66>>)
          \cup Tag("precision", PrecisionAgrees(d.frame.unit, ev.lib.precision, ev.lib.unit))
